@@ -61,6 +61,16 @@ def impl_case(case):
         importlib.import_module("harness." + os.path.basename(f)[:-3])
     scratch = core.BUILD / "scratch" / f"{os.getpid()}"
     core.debug_logging(bool(case["cfg"].get("debug_log")))     # a share of the cases runs with DEBUG logging on
+    if case["cfg"].get("cb_reenters"):
+        # the callback calls back into the gateway: a pump that blocks on itself is interrupted after 30 s
+        import signal
+
+        def _stuck(signum, frame):
+            signal.alarm(5)
+            from harness.impl.gwrun import PumpBlocked
+            raise PumpBlocked("the message pump blocked for 30 s (callback re-entering the gateway)")
+        signal.signal(signal.SIGALRM, _stuck)
+        signal.alarm(30)
     im = gwrun.Impl(case["cfg"], scratch)
     mons = [monitors.REGISTRY[n]() for n in case.get("monitors", [])]
     trk = monitors.Tracker(im)
@@ -159,6 +169,9 @@ def impl_case(case):
         outs.append(run_op(o))
     for m in mons:
         m.end(im, trk)
+    if case["cfg"].get("cb_reenters"):
+        import signal
+        signal.alarm(0)
     if case["cfg"].get("persist_cwd"):
         os.chdir(str(core.VERIF))        # the case's working directory is removed afterwards
     if case["cfg"].get("tz"):
@@ -299,7 +312,7 @@ def run_all(ctx, cases):
         raw = outs
         for i, (ls, o) in enumerate(zip(mlines, outs)):
             # histories with an op the sequential model does not express are judged by the monitors only
-            if not any(tuple(x)[0] == "restart_early" for x in cases[i]["ops"]):
+            if not any(tuple(x)[0] == "restart_early" for x in cases[i]["ops"]) and not cases[i]["cfg"].get("cb_reenters"):
                 model[i] = pick_outputs(cases[i], ls, o)
     else:
         raw = [None] * len(cases)
